@@ -379,7 +379,14 @@ class BoboDecider(BoboEngineTask,
 
                 if runlocal is not None:
                     # If run exists, update its internal state...
-                    if runremote.block_index > runlocal.block_index:
+                    # Progress inside a looping block keeps the block index
+                    # and only extends the history, so compare both.
+                    if (
+                            (runremote.block_index,
+                             runremote.history.size()) >
+                            (runlocal.block_index,
+                             runlocal.history().size())
+                    ):
                         runlocal.set_block(
                             block_index=runremote.block_index,
                             history=runremote.history)
